@@ -158,6 +158,15 @@ def run(repo: Repo, rep: Report, tier: str) -> None:
     ok18 = any(g18.dominates(d, ret18[0]) for d in dec18)
     rep.check(ok18, "C02-R18", "_try_fold_projection_into_source declines for a producer that outputs a wildcard", "`return None` for signal-each / signal-everything producers dominates the retyping" if ok18 else
               "a bundle arithmetic or filter can be renamed to a single output signal: all members are summed onto it (46 instead of 6 for b = {100, -80, 3} * 2)", pf18.loc(ret18[0]))
+    rep.rule("C02-R19", "a gate passes a bundle whatever its condition is made of: each function that lowers `cond : value` (comparison, named condition, compound condition) "
+             "has an arm for a bundle value that builds the bundle gate (`bundle_gating_decider`) — without it the value is treated as a scalar and `c : b` or "
+             "`((k > 2) && (j > 0)) : b` yields an empty bundle")
+    for fn19 in ("lower_output_spec_expr", "_lower_identifier_condition_output_spec", "_lower_compound_output_spec"):
+        f19 = repo.func(f"ExpressionLowerer.{fn19}")
+        arms19 = [n for n in walk_local(f19.node) if isinstance(n, ast.If) and "BundleRef" in norm(n.test) and "isinstance(" in norm(n.test)
+                  and any(isinstance(x, ast.Call) and call_name(x) == "bundle_gating_decider" for b in n.body for x in ast.walk(b))]
+        rep.check(bool(arms19), "C02-R19", f"{fn19}: a bundle value gets the bundle gate", "isinstance(..., BundleRef) -> bundle_gating_decider" if arms19 else
+                  "no arm for a bundle value: the gate is built as a scalar decider and nothing of the bundle comes out", f19.loc())
     rep.rule("C02-R14", "a wildcard compared with a signal does not count that signal: `any(b) CMP k` / `all(b) CMP k` is a decider whose first operand is signal-anything / "
              "signal-everything; the placement raises the separation flag for it, and the planner then brings the scalar in on green as it does for a bundle filter")
     pa = ep.methods["_place_arithmetic"]
